@@ -17,7 +17,7 @@ def main (args : List String) : IO UInt32 := do
   | ["pitch"] => Driver.loop stdin stdout Driver.Pitch.step (); return 0
   | ["synth"] => Driver.loop stdin stdout Driver.Synth.step Opn.Synth.init; return 0
   | ["audio"] => Driver.loop stdin stdout Driver.Audio.step (); return 0
-  | ["seq"] => Driver.loop stdin stdout Driver.Seq.step ({} : Driver.Seq.St); return 0
+  | ["seq"] => Driver.loop stdin stdout (fun st ws => Driver.Seq.step st (match ws with | "openfiledata" :: r => "opendata" :: r | _ => ws)) ({} : Driver.Seq.St); return 0
   | ["settings"] => Driver.loop stdin stdout Driver.Settings.step' ({} : Opn.Settings.S); return 0
   | ["wopn"] => Driver.loop stdin stdout Driver.Wopn.step (); return 0
   | _ =>
